@@ -47,7 +47,7 @@ func MarshalJSON[T any](t TestingT, cases []CaseJSON[T]) {
 			continue
 		}
 		if c.Error != nil {
-			if c.Error(t, err, failInfo) {
+			if assertError(t, c.Error, err, failInfo) {
 				assert.Nil(t, b, failInfo)
 			}
 		} else {
@@ -85,7 +85,7 @@ func UnmarshalJSON[T any](t TestingT, cases []CaseJSON[T], helper TypeHelper[T])
 			continue
 		}
 		if c.Error != nil {
-			if c.Error(t, err, failInfo) {
+			if assertError(t, c.Error, err, failInfo) {
 				helperAssertEmpty(helper, t, v, failInfo)
 			}
 		} else {
